@@ -299,7 +299,8 @@ func DescriptorListSearch(dl []Descriptor, opt MatchOpt) (Descriptor, error) {
 		if d.Platform == nil {
 			continue
 		}
-		if comp.Better(*d.Platform, retPlat) {
+		// the first compatible entry is a match, later entries replace it when they are better
+		if (!found && comp.Compatible(*d.Platform)) || (found && comp.Better(*d.Platform, retPlat)) {
 			found = true
 			ret = d
 			retPlat = *d.Platform
